@@ -979,9 +979,9 @@ def check_factorwise(case, ctx):
 
 @st.composite
 def factorwise_case(draw, tier):
-    heavy = draw(st.integers(0, 9 if tier == "quick" else 5))
+    heavy = draw(st.integers(0, 5))
     if heavy == 0:
-        dims = draw(st.sampled_from([[2, 2, 2], [3, 3]]))
+        dims = draw(st.sampled_from([[2, 2, 2], [2, 2, 2], [3, 3]]))
     else:
         dims = draw(st.sampled_from([[2, 2], [2, 3], [3, 2]]))
     k = len(dims)
@@ -1145,7 +1145,7 @@ FACETS = {
     "kron_order": {
         "strategy": kron_case,
         "check": check_kron_order,
-        "budget": {"quick": {"examples": 640, "shards": 8}, "thorough": {"examples": 6400, "shards": 16}},
+        "budget": {"quick": {"examples": 640, "shards": 8}, "thorough": {"examples": 4000, "shards": 16}},
         "nontrivial": "names not ascending and (k >= 3 or different outcome counts or dims 2/3 mixed), at least one grouping "
                       "evaluated; basis family: k >= 3 or mixed dims",
         "min_nontrivial": 40,
@@ -1161,21 +1161,21 @@ FACETS = {
     "product_statistics": {
         "strategy": stats_case,
         "check": check_product_statistics,
-        "budget": {"quick": {"examples": 500, "shards": 2}, "thorough": {"examples": 8000, "shards": 16}},
+        "budget": {"quick": {"examples": 500, "shards": 2}, "thorough": {"examples": 6000, "shards": 16}},
         "nontrivial": "at least one of the products (state, gate, mprocess, POVM) is formed with arguments not in ascending name",
         "min_nontrivial": 30,
     },
     "factorwise_action": {
         "strategy": factorwise_case,
         "check": check_factorwise,
-        "budget": {"quick": {"examples": 500, "shards": 2}, "thorough": {"examples": 8000, "shards": 16}},
+        "budget": {"quick": {"examples": 500, "shards": 2}, "thorough": {"examples": 6000, "shards": 16}},
         "nontrivial": "arguments not in ascending name and (entangled input or k >= 3 or mixed dims or a measurement process factor)",
         "min_nontrivial": 30,
     },
     "embedding": {
         "strategy": embedding_case,
         "check": check_embedding,
-        "budget": {"quick": {"examples": 390, "shards": 3}, "thorough": {"examples": 4800, "shards": 16}},
+        "budget": {"quick": {"examples": 390, "shards": 3}, "thorough": {"examples": 4000, "shards": 16}},
         "nontrivial": "every case (generated physical qutrit object, generated embedded input and probe POVM)",
         "min_nontrivial": 30,
     },
